@@ -86,13 +86,18 @@ def strat_history(draw, tier):
             overlap = {"at": draw(st.integers(0, 3)),
                        "preset": draw(st.sampled_from([None] + PRESETS)),
                        "extra": {name: draw(st.integers(0, (1 << bits) - 1))}}
+        style = draw(st.sampled_from(["kwargs", "sv_overrides", "both",
+                                      "shared_dict"]))
+        if style == "sv_overrides" and draw(st.integers(0, 2)) == 0:
+            # the system variable that shares its name with a parameter of
+            # boot() can only be named in the dictionary
+            extra["boot_delay"] = draw(st.integers(0, 255))
         calls.append({
             "overlap": overlap,
             "refuse_send": refuse, "dims": draw(st.booleans()),
             "via": draw(st.sampled_from(["boot", "boot", "controller"])),
             "preset": preset, "extra": extra,
-            "style": draw(st.sampled_from(["kwargs", "sv_overrides", "both",
-                                           "shared_dict"])),
+            "style": style,
             "image": size, "delay": draw(st.sampled_from([0.0, 0.05])),
             "advance": draw(st.sampled_from([0.0, 1.5, 1000.25]))})
     return {"calls": calls}
